@@ -664,11 +664,198 @@ def run_deploy(pair, rng, variant, opts):
     return tr
 
 
+# ------------------------------------------------------------------------------------------
+# reserve
+# ------------------------------------------------------------------------------------------
+
+def run_reserve(pair, rng, variant, opts):
+    """guaranteed-ticket variants: allocation with guarantees, batched blacklisting and un-blacklisting
+    (before and after the deposit, re-using freed reservations), deposit probes at every checkpoint"""
+    tr = Trace(pair, f"reserve-{variant}")
+    nrw = rng.range(3, 9)
+    su = Setup(tr, variant, nrw=nrw, minc=rng.range(1, 2))
+    users = list(range(10, 20))
+    if not su.deploy(users):
+        return tr
+    if variant in NFT:
+        tr.call(OWNER, "sftSetup")
+    tr.call(OWNER, "setSupport", [SUPPORT])
+    ep = alloc_ep(variant)
+    tr.bound = 80
+    allocated, black = [], set()
+    pending = list(users)
+
+    def entry(u):
+        if variant in V1ALLOC:
+            st = rng.pick([0, su.minc, su.minc + 1])
+            return [u, st, rng.range(0, 2), 1 if rng.chance(1, 2) else 0]
+        n = rng.range(1, 4)
+        m = rng.pick([0, 1, 1, 2])
+        flat = []
+        for _ in range(m):
+            g = rng.range(0, 2)
+            flat += [g, max(g, rng.range(1, n))]
+        return [u, n, m] + flat
+
+    def deposit_probe():
+        d = tr.dump()
+        g, _ = canon.parse_D(d)
+        amt = int(g["per"]) * (int(g["nrw"]) + int(g.get("tg", "0")))
+        for delta in (0, 1, -1):
+            if amt + delta > 0:
+                tr.call(OWNER, "deposit", esdts=[(LP_TOK, 0, amt + delta)], probe=True)
+        return g
+
+    deposited = False
+    for stepi in range(rng.range(10, 22)):
+        k = rng.below(10)
+        if k < 3 and pending:
+            cnt = rng.range(1, min(3, len(pending)))
+            batch, pending = pending[:cnt], pending[cnt:]
+            args = [len(batch)]
+            for u in batch:
+                args += entry(u)
+            res = tr.call(OWNER, ep, args)
+            if res["st"] == "ok":
+                allocated += batch
+        elif k < 6 and allocated:
+            cands = [u for u in allocated if u not in black]
+            if cands:
+                vs = rng.shuffle(cands)[:rng.range(1, min(3, len(cands)))]
+                if rng.chance(1, 8):
+                    vs = vs + [vs[0]]
+                bep = "refundUsers" if variant == "guarV2" and rng.chance(1, 3) else "blacklist"
+                res = tr.call(rng.pick([OWNER, OWNER, SUPPORT]), bep, [len(vs)] + vs)
+                if res["st"] == "ok":
+                    black |= set(vs)
+        elif k < 8 and black and variant in UNBL:
+            vs = rng.shuffle(sorted(black))[:rng.range(1, min(2, len(black)))]
+            res = tr.call(rng.pick([OWNER, SUPPORT]), "unblacklist", [len(vs)] + vs)
+            if res["st"] == "ok":
+                black -= set(vs)
+        elif k == 8 and not deposited:
+            g = deposit_probe()
+            amt = int(g["per"]) * (int(g["nrw"]) + int(g.get("tg", "0")))
+            res = tr.call(OWNER, "deposit", esdts=[(LP_TOK, 0, amt)])
+            deposited = res["st"] == "ok"
+        else:
+            deposit_probe()
+        tr.dump()
+        if stepi == 12 and rng.chance(1, 2):
+            # move into the confirmation window: allocations stop, blacklist changes continue
+            if not deposited:
+                g = deposit_probe()
+                amt = int(g["per"]) * (int(g["nrw"]) + int(g.get("tg", "0")))
+                deposited = tr.call(OWNER, "deposit", esdts=[(LP_TOK, 0, amt)])["st"] == "ok"
+            tr.round = su.conf
+            pending = []
+            for u in allocated:
+                if u not in black and rng.chance(2, 3):
+                    tr.call(u, "confirm", [1], **su.pay(su.price))
+            tr.dump()
+    return tr
+
+
+# ------------------------------------------------------------------------------------------
+# vest
+# ------------------------------------------------------------------------------------------
+
+def run_vest(pair, rng, variant, opts):
+    """vesting variants: a multi-release schedule, winners with entitlements not divisible by the
+    percentages, claims at arbitrary rounds (before, at, between and long after the releases), repeated
+    claims, schedule-change attempts and pauses in the middle of the vesting period"""
+    tr = Trace(pair, f"vest-{variant}")
+    nusers = rng.range(2, 4)
+    per = rng.pick([100, 999, 7, 10**18 + 1, 3333])
+    su = Setup(tr, variant, nrw=rng.range(nusers, 2 * nusers + 1), per=per, claim=rng.pick([20, 25, 30]))
+    users = list(range(10, 10 + nusers))
+    if not su.deploy(users):
+        return tr
+    base = su.claim
+    if variant == "guarV1":
+        times = rng.range(1, 5)
+        pct = rng.pick([10000 // (times + 1), 1000, 2500])
+        initial = 10000 - times * pct
+        period = rng.range(1, 7)
+        start = base + rng.range(0, 4)
+        if initial < 0:
+            initial, times, pct = 5000, 2, 2500
+        tr.call(OWNER, "setSchedule1", [start, initial, times, pct, period])
+        last_release = start + times * period
+    else:
+        k = rng.range(1, 5)
+        cuts = sorted(rng.range(1, 9999) for _ in range(k - 1))
+        pcts, prev = [], 0
+        for c in cuts + [10000]:
+            pcts.append(c - prev)
+            prev = c
+        rounds, rr = [], base + rng.range(0, 3)
+        for _ in pcts:
+            rounds.append(rr)
+            rr += rng.range(0, 6)
+        args = [len(pcts)]
+        for a, b in zip(rounds, pcts):
+            args += [a, b]
+        tr.call(OWNER, "setSchedule2", args)
+        last_release = rounds[-1]
+    pairs = [(u, rng.range(1, 3)) for u in users]
+    su.allocate(pairs)
+    su.deposit()
+    su.confirm_all(pairs)
+    tr.round = su.sel
+    tr.call(STRANGER, "filter")
+    tr.call(STRANGER, "select", seeds=[rng.seed32()])
+    for _ in range(40):
+        r = tr.call(STRANGER, "distribute", seeds=[rng.seed32(), rng.seed32()])
+        if r["st"] != "ok" or r.get("ret") == "[0]":
+            break
+    tr.round = su.claim
+    tr.dump()
+    horizon = last_release + 8
+    steps = rng.range(8, 18)
+    for i in range(steps):
+        tr.round = min(horizon + 5, tr.round + rng.pick([0, 0, 1, 1, 2, 3, 5]))
+        k = rng.below(12)
+        u = rng.pick(users)
+        if k < 7:
+            tr.call(u, "claim")
+        elif k < 8:
+            tr.call(OWNER, "claimPayment")
+        elif k < 10:
+            if variant == "guarV1":
+                res = tr.call(OWNER, "setSchedule1", [tr.round + rng.range(0, 2), 10000, 0, 0, 0])
+            else:
+                res = tr.call(OWNER, "setSchedule2", [1, tr.round + rng.range(0, 2), 10000])
+            if res["st"] == "ok":
+                tr.dump()
+                tr.round += 2
+                for b in users:
+                    tr.call(b, "claim")
+                    tr.dump()
+        else:
+            tr.call(OWNER, "pause")
+            tr.dump()
+            tr.call(u, "claim")
+            tr.dump()
+            tr.call(OWNER, "unpause")
+        tr.dump()
+    tr.round = horizon + 10
+    for u in users:
+        tr.call(u, "claim")
+        tr.dump()
+    tr.call(OWNER, "claimPayment")
+    tr.dump()
+    for u in users:
+        tr.call(u, "claim")
+    tr.dump()
+    return tr
+
+
 def run_life(pair, rng, variant, opts):
     tr = Trace(pair, f"life-{variant}")
     Life(tr, rng, variant, opts).run()
     return tr
 
 
-RUNNERS = {"deploy": run_deploy, "life": run_life, "fy": run_fy, "chunks": run_chunks, "perm": run_perm, "alloc": run_alloc,
+RUNNERS = {"vest": run_vest, "reserve": run_reserve, "deploy": run_deploy, "life": run_life, "fy": run_fy, "chunks": run_chunks, "perm": run_perm, "alloc": run_alloc,
            "timeline": run_timeline}
